@@ -10,6 +10,14 @@ post-condition; `bridges_part` replays every emitted line on the real functions:
     specification and is compared to 1e-12 relative);
   * post-conditions with seeded RNG where the function randomises (unique) or runs a solver (solve, as_constraint).
 Violation keys start with `bridge:`.
+
+H17 (spellings and boundary values): every emitted case is replayed in a spelling chosen by rotation (Rep.pick): k and h written
+or omitted where the specification says they are the type's documented defaults (`dflt`), k as int / float / numpy scalar,
+condition arguments as args=(d,) / args=[d] / kwds, probe points and lattice points as ints, floats, numpy scalars, lists,
+tuples, float64 / int64 / float32 arrays, tolerances as int / float / numpy float, vectorize data as float64 / int64 / float32 /
+Fortran-ordered / strided view and axis as int / numpy int / omitted, near_integers / has_unique on lists, tuples, arrays, mixed
+number types and the empty vector, unique() on lists / tuples / numpy scalars with `full` as set / frozenset / list / tuple /
+range; the catalogues hold negative and two-digit values.  ck.extra["c17_bridges"]["spellings"] counts the uses.
 """
 import io, math, random as pyrandom, contextlib, shutil, itertools, functools
 from concurrent.futures import ThreadPoolExecutor
@@ -73,7 +81,9 @@ def vt_float(vt):
     return v, not lg
 
 
-def same(got, exp, exact):
+def same(got, exp, exact, rel=1e-12):
+    """rel: the stated tolerance where a square root is taken (1e-12; 1e-6 when the point is given in single precision:
+    numpy then computes the residual in float32)"""
     try:
         got = float(got)
     except Exception:
@@ -82,7 +92,11 @@ def same(got, exp, exact):
         return got != got
     if exact or exp in (PINF, -PINF):
         return got == exp
-    return abs(got - exp) <= 1e-12 * max(1.0, abs(exp))
+    return abs(got - exp) <= rel * max(1.0, abs(exp))
+
+
+def rel_of(x):
+    return 1e-6 if str(getattr(x, "dtype", "")) == "float32" else 1e-12
 
 
 def rad_float(v):
@@ -136,12 +150,20 @@ class Rep(object):
         self.ck, self.mc, self.cp, self.mp, self.a, self.light = ck, mc, cp, mp, a, light
         self.stats = {}
         self.obs = {}
+        self.spell = {}
+        self.legacy = False          # True: one spelling per input, as before H17
 
     def bad(self, key, detail, what):
         self.ck.violation(key, detail, what)
 
     def count(self, k, n=1):
         self.stats[k] = self.stats.get(k, 0) + n
+
+    def pick(self, kind, seq, k):
+        """H17: the spelling number k of the rotation `seq` (counted per kind for the evidence); legacy: the first one"""
+        how = seq[0] if self.legacy else seq[k % len(seq)]
+        self.spell[kind + ":" + how] = self.spell.get(kind + ":" + how, 0) + 1
+        return how
 
     def cmp_list(self, key, detail, exp_vts, fn, xs, what):
         """fn(x) for every x against Penalty-style values"""
@@ -163,6 +185,7 @@ class Rep(object):
             self._withpen(cases)
 
     def _withpen(self, cases):
+        import numpy
         mc, mp, cp = self.mc, self.mp, self.cp
         for n, cs in enumerate(cases):
             M = len(cs["cond"])
@@ -172,13 +195,21 @@ class Rep(object):
             k = PINF if cs["k"] == INF else cs["k"]
             d, it = cs["d"], cs["it"]
             kw = {"k": k, "h": cs["h"]}
+            if cs.get("dflt") and self.pick("with_penalty-k-h", ("written", "omitted (the type's defaults)", "written"), n) != "written":
+                kw = {}                                    # the specification says these k, h are the documented defaults of the type
+            elif k != PINF:
+                hk = self.pick("with_penalty-k", ("int", "float", "np_int64", "np_float64"), n)
+                kw["k"] = {"int": int, "float": float, "np_int64": numpy.int64, "np_float64": numpy.float64}[hk](k)
             if d:
-                if n % 2:
-                    kw["args"] = (d,)
-                else:
+                ha = self.pick("condition-args", ("args=(d,)", "kwds={'a': d}", "args=[d]"), n + 1)
+                if ha == "kwds={'a': d}":
                     kw["kwds"] = {"a": d}
+                else:
+                    kw["args"] = (d,) if ha == "args=(d,)" else [d]
             elif n % 3 == 0:
                 kw["args"] = (0,)
+            hx = self.pick("probe-x", ("int", "float", "np_int64", "np_float32"), n // 2)
+            X = [{"int": int, "float": float, "np_int64": numpy.int64, "np_float32": numpy.float32}[hx](x) for x in X]
             desc = "with_penalty(%s, k=%s, h=%s%s)(cond) with cond=%s" % (
                 cs["ty"], k, cs["h"], "".join(", %s=%r" % (q, kw[q]) for q in ("args", "kwds") if q in kw),
                 ["ZeroDivisionError" if v == ZD else v for v in cs["cond"]])
@@ -208,7 +239,7 @@ class Rep(object):
                 continue
             # error(x) and issolution on a penalty
             for x in X:
-                e2 = cs["err2"][x]
+                e2 = cs["err2"][int(x)]
                 exp = PINF if e2 == INF else math.sqrt(e2)
                 got = p.error(x)
                 if got != exp:
@@ -216,8 +247,14 @@ class Rep(object):
                     break
             for st in vals(cs["sol"]):
                 tol = st["tol"]
+                ht = self.pick("issolution-tol", ("float", "int", "np_float64", "float"), n + tol)
+                tolv = {"float": float, "int": int, "np_float64": numpy.float64}[ht](tol)
                 for x in X:
-                    got = mc.issolution(p, x) if tol == 0 else mc.issolution(p, x, tol=float(tol))
+                    if tol == 0 and (self.legacy or n % 2):
+                        got = mc.issolution(p, x)                      # (errors are whole numbers here: the default 1e-3 decides like 0)
+                    else:
+                        got = mc.issolution(p, x, tol=tolv)
+                    x = int(x)
                     if bool(got) != st["acc"][x]:
                         self.bad("bridge:issolution:penalty", dict(det, x=x, tol=tol or "default", expected=st["acc"][x], got=bool(got)),
                                  "issolution(%s, %d%s) should be %s (error(x)=%s)" % (desc, x, "" if tol == 0 else ", tol=%d" % tol, st["acc"][x], p.error(x)))
@@ -297,10 +334,10 @@ class Rep(object):
             c = lat.cons(cs["tab"])
             c_d = (lambda x: c(x, d)) if d else c
             pts = [list(q) for q in lat.pts]
-            if n % 3 == 2:
-                pts_in = [numpy.array(q) for q in pts]
+            if self.legacy:
+                pts_in = [numpy.array(q) for q in pts] if n % 3 == 2 else pts
             else:
-                pts_in = pts
+                pts_in = [self.spell_point(q, n + j) for j, q in enumerate(pts)]
             det = {"S": cs["S"], "constraint_table": cs["tab"], "d": d, "t1": cs["t1"], "t2": cs["t2"], "swap": cs["sw"]}
             desc = "c = table %s on {0,.5,..}^2 (point index = %d*2x0 + 2x1)%s" % (cs["tab"], cs["S"], ", extra argument %d" % d if d else "")
             nfix = len(cs["fixed"])
@@ -314,7 +351,12 @@ class Rep(object):
                 ty = pj["ty"]
                 for pk in vals(pj["v"]):
                     try:
-                        p = mc.as_penalty(c, getattr(mp, ty), k=pk["k"], h=cs["h"], **route)
+                        hk = self.pick("as_penalty-k", ("int", "float", "np_int64", "np_float64"), n + pk["k"])
+                        kv = {"int": int, "float": float, "np_int64": numpy.int64, "np_float64": numpy.float64}[hk](pk["k"])
+                        if self.pick("as_penalty-ptype", ("positional", "keyword"), n + pk["k"] // 2) == "keyword":
+                            p = mc.as_penalty(c, ptype=getattr(mp, ty), k=kv, h=cs["h"], **route)
+                        else:
+                            p = mc.as_penalty(c, getattr(mp, ty), k=kv, h=cs["h"], **route)
                     except Exception as ex:
                         self.bad("bridge:as_penalty:raises", dict(det, ptype=ty, error=repr(ex)), "as_penalty(c, %s) raised %r; %s" % (ty, ex, desc))
                         ok = False
@@ -331,7 +373,7 @@ class Rep(object):
                                 got = p(xin)
                             except Exception as ex:
                                 got = "raised %r" % (ex,)
-                            if isinstance(got, str) or not same(got, exp, exact):
+                            if isinstance(got, str) or not same(got, exp, exact, rel_of(xin)):
                                 kind = "zero-set" if (exp == 0) != (got == 0) else "value"
                                 self.bad("bridge:as_penalty:%s" % kind, dict(det, ptype=ty, k=pk["k"], h=cs["h"], iteration=pit["it"], x=pts[q], cx=c_d(pts[q]),
                                                                               expected=exp, got=got),
@@ -352,7 +394,7 @@ class Rep(object):
             except Exception as ex:
                 got = "raised %r" % (ex,)
             exp = [rad_float(v)[0] for v in cs["dflt"]]
-            if isinstance(got, str) or not all(same(g, e, sq) for g, e, sq in zip(got, exp, cs["sq"])):
+            if isinstance(got, str) or not all(same(g, e, sq, rel_of(xi)) for g, e, sq, xi in zip(got, exp, cs["sq"], pts_in)):
                 self.bad("bridge:as_penalty:default", dict(det, expected=exp, got=got), "as_penalty(c) (defaults): specification says %s, mystic gives %s; %s" % (exp, got, desc))
             # issolution on the constraint and on the penalty made from it
             try:
@@ -367,7 +409,12 @@ class Rep(object):
                             continue
                         keep = list(pts[q])
                         try:
-                            got = mc.issolution(obj, xin) if tol == 0 else mc.issolution(obj, xin, tol=tol / 2.0)
+                            if tol == 0:
+                                got = mc.issolution(obj, xin)
+                            elif tol % 2 == 0 and self.pick("issolution-tol", ("float", "int", "np_float64"), n + q) != "float":
+                                got = mc.issolution(obj, xin, tol=tol // 2 if (n + q) % 3 == 1 else numpy.float64(tol / 2.0))
+                            else:
+                                got = mc.issolution(obj, xin, tol=tol / 2.0)
                         except Exception as ex:
                             got = "raised %r" % (ex,)
                         if isinstance(got, str) or bool(got) != st["acc"][q]:
@@ -382,6 +429,28 @@ class Rep(object):
         if cases:
             s = cases[len(cases) // 2]
             self.ck.sample({"as_penalty": {"c": s["tab"], "d": s["d"]}, "|c(x)-x|^2 (quarter units)": s["d2"], "fixed": s["fixed"]})
+
+    POINT_ROT = ("list_float", "np_float64", "list_int", "tuple", "np_int64", "np_float32", "list_np")
+
+    def spell_point(self, q, k):
+        """a lattice point (coordinates are multiples of 1/2) in the spelling number k"""
+        import numpy
+        how = self.pick("point", self.POINT_ROT, k)
+        q = [float(v) for v in q]
+        integral = all(v == int(v) for v in q)
+        if how == "list_int":                       # python ints where the coordinate is whole (a mixed list otherwise)
+            return [int(v) if v == int(v) else v for v in q]
+        if how == "np_int64" and integral:
+            return numpy.array([int(v) for v in q], dtype=numpy.int64)
+        if how in ("np_float64", "np_int64"):
+            return numpy.array(q)
+        if how == "np_float32":
+            return numpy.array(q, dtype=numpy.float32)
+        if how == "tuple":
+            return tuple(q)
+        if how == "list_np":
+            return [numpy.float64(v) for v in q]
+        return q
 
     # ---------------------------------------------------------------- vectorize
     def vect(self, cases, cases_r):
@@ -403,14 +472,30 @@ class Rep(object):
                 bad_axes = []
             self.count(cs["fam"])
             differs = False
-            for rs in cs["res"]:
+            for nr, rs in enumerate(cs["res"]):
                 data = numpy.array(rs["m"], dtype=float) / 2.0
                 differs = differs or rs["a0"] != rs["a1"]
+                self.nvect = getattr(self, "nvect", 0) + 1
+                hd = self.pick("vectorize-data", ("float64", "int64", "float32", "fortran-order", "view-of-larger-array", "float64"), self.nvect)
+                if hd == "int64" and numpy.all(data == numpy.floor(data)):
+                    data = data.astype(numpy.int64)
+                elif hd == "float32":
+                    data = data.astype(numpy.float32)
+                elif hd == "fortran-order":
+                    data = numpy.asfortranarray(data)
+                elif hd == "view-of-larger-array":
+                    big = numpy.full((data.shape[0] * 2, data.shape[1] * 2), -7.0)
+                    big[::2, ::2] = data
+                    data = big[::2, ::2]
                 for axis, name in ((0, "a0"), (1, "a1")):
                     exp = numpy.array(rs[name], dtype=float) / 2.0
                     keep = data.copy()
                     try:
-                        v = mc.vectorize(c, axis=axis)
+                        hax = self.pick("vectorize-axis", ("int", "np_int64", "int", "omitted-when-1"), self.nvect + axis)
+                        if hax == "omitted-when-1" and axis == 1:
+                            v = mc.vectorize(c)
+                        else:
+                            v = mc.vectorize(c, axis=numpy.int64(axis) if hax == "np_int64" else axis)
                         got = v(data, d) if d else v(data)
                         okv = isinstance(got, numpy.ndarray) and got.shape == exp.shape and numpy.array_equal(got, exp)
                     except Exception as ex:
@@ -444,14 +529,37 @@ class Rep(object):
             self.count("scalar")
             try:
                 got = mc.near_integers(numpy.array(v))
-                got2 = mc.near_integers(v) if n % 4 == 0 else got
+                hn = self.pick("near_integers-x", ("list", "float64 only", "float32", "int64", "tuple", "list"), n // 4 if self.legacy else n)
+                if self.legacy:
+                    got2 = mc.near_integers(v) if n % 4 == 0 else got
+                elif hn == "float32":
+                    got2 = mc.near_integers(numpy.array(v, dtype=numpy.float32))
+                elif hn == "int64" and all(q % 4 == 0 for q in cs["v"]):
+                    got2 = mc.near_integers(numpy.array([q // 4 for q in cs["v"]], dtype=numpy.int64))
+                elif hn == "tuple":
+                    got2 = mc.near_integers(tuple(v))
+                elif hn == "list":
+                    got2 = mc.near_integers([int(w) if w == int(w) and n % 2 else w for w in v])
+                else:
+                    got2 = got
             except Exception as ex:
                 got = got2 = "raised %r" % (ex,)
             if isinstance(got, str) or got != cs["near"] / 4.0 or got2 != got:
                 self.bad("bridge:near_integers", {"x": v, "expected": cs["near"] / 4.0, "got": got, "got_on_list": got2},
                          "near_integers(%s): specification says %s, mystic gives %s" % (v, cs["near"] / 4.0, got))
             try:
-                got = mc.has_unique(list(v))
+                hu = self.pick("has_unique-x", ("list_float", "tuple", "list_int", "list_np", "list_mixed"), n)
+                if hu == "tuple":
+                    xs = tuple(v)
+                elif hu == "list_int":                 # whole numbers as python ints
+                    xs = [int(w) if w == int(w) else w for w in v]
+                elif hu == "list_np":
+                    xs = [numpy.float64(w) for w in v]
+                elif hu == "list_mixed":               # equal values in different spellings still count as equal
+                    xs = [(int(w) if j % 2 else numpy.float32(w)) if w == int(w) else w for j, w in enumerate(v)]
+                else:
+                    xs = list(v)
+                got = mc.has_unique(xs)
             except Exception as ex:
                 got = "raised %r" % (ex,)
             if got != cs["hasu"]:
@@ -466,11 +574,26 @@ class Rep(object):
         def pyval(h):
             return h // 2 if h % 2 == 0 else h / 2.0
 
-        def mkfull(cs):
+        def mkfull(cs, n=0):
             f, lo, hi = cs["form"], cs["lo"], cs["hi"]
+            if f == "set":                             # "a sequence (list or set)"
+                hs = self.pick("unique-full-set", ("set", "list", "tuple", "frozenset", "reversed list"), n)
+                return {"set": set, "list": list, "tuple": tuple, "frozenset": frozenset,
+                        "reversed list": lambda r: list(r)[::-1]}[hs](range(lo, hi + 1))
+            if f == "range" and self.pick("unique-full-range", ("range", "list(range)"), n) != "range":
+                return list(range(lo, hi + 1))
             return {"none": lambda: None, "int": lambda: int, "float": lambda: float,
-                    "set": lambda: set(range(lo, hi + 1)), "range": lambda: range(lo, hi + 1),
+                    "range": lambda: range(lo, hi + 1),
                     "dict": lambda: {"min": lo, "max": hi + 1}, "dictint": lambda: {"min": lo, "max": hi + 1, "type": int}}[f]()
+
+        def spell_seq(seq, n):
+            import numpy
+            hs = self.pick("unique-seq", ("list", "tuple", "list of numpy scalars", "list"), n)
+            if hs == "tuple":
+                return tuple(seq)
+            if hs == "list of numpy scalars":
+                return [numpy.int64(v) if isinstance(v, int) else numpy.float64(v) for v in seq]
+            return list(seq)
 
         def post(cs, seq, res):
             """the post-condition of the specification; returns None or (class, text)"""
@@ -501,13 +624,15 @@ class Rep(object):
             seq = [pyval(h) for h in cs["s"]]
             self.ck.case(nontrivial=cs["need"] > 0, key=("uniq", str(cs["s"]), cs["form"], cs["lo"], cs["hi"]))
             self.count("uniq")
-            full = mkfull(cs)
+            full = mkfull(cs, n)
             fullrepr = repr(full)
+            seq = spell_seq(seq, n)
             det = {"seq": seq, "full": fullrepr, "outcome": cs["outcome"], "keep_positions": [i - 1 for i in cs["keep"]]}
             f_imp = mc.impose_unique(full)(lambda x: x)
-            calls = [("unique(%r, %s)" % (seq, fullrepr), lambda: mc.unique(list(seq), mkfull(cs))),
-                     ("impose_unique(%s)(identity)(%r)" % (fullrepr, seq), lambda: f_imp(list(seq))),
-                     ("impose_unique(%s)(identity)(%r) [second call of the same decorated function]" % (fullrepr, seq), lambda: f_imp(list(seq)))]
+            again = (lambda: type(seq)(seq)) if not isinstance(seq, list) else (lambda: list(seq))
+            calls = [("unique(%r, %s)" % (seq, fullrepr), lambda: mc.unique(again(), mkfull(cs, n))),
+                     ("impose_unique(%s)(identity)(%r)" % (fullrepr, seq), lambda: f_imp(again())),
+                     ("impose_unique(%s)(identity)(%r) [second call of the same decorated function]" % (fullrepr, seq), lambda: f_imp(again()))]
             for j, (what, call) in enumerate(calls):
                 pyrandom.seed(seed0 + 3 * n + j)
                 try:
@@ -668,6 +793,14 @@ class Rep(object):
         self.stats["solver_runs"] = nrun
 
 
+def corrupt_dflt(tl):
+    """H17: the specification's statement 'these k, h are the defaults of the type' made wrong for the chains where it is false"""
+    import copy
+    t = dict(tl)
+    t["withpen"] = [dict(c, dflt=True) if not c["dflt"] else c for c in copy.deepcopy(tl["withpen"])]
+    return t
+
+
 def corrupt_tables(tl):
     """one expected value of every family changed: the replay must object to each"""
     import copy
@@ -691,8 +824,12 @@ EXPECT_CORRUPT = ("bridge:with_penalty:value", "bridge:with_constraint:cost-at-c
                   "bridge:near_integers", "bridge:unique:", "bridge:solve:constraint-result-not-a-solution", "bridge:issolution:penalty-lattice")
 
 
-def bridges_part(ck, a, corrupt=False, light=False, tl=None, fams=FAMS):
-    """TLC on Bridges.tla, then the replay of every emitted case on mystic; returns the statistics"""
+MIN_PER_SPELLING = 12          # every spelling of a rotation must occur at least that often in a full run (machinery check)
+
+
+def bridges_part(ck, a, corrupt=False, light=False, tl=None, fams=FAMS, legacy=False):
+    """TLC on Bridges.tla, then the replay of every emitted case on mystic; returns the statistics.
+    legacy: one spelling per input, as before H17"""
     import mystic.constraints as mc
     import mystic.coupler as cp
     import mystic.penalty as mp
@@ -714,6 +851,7 @@ def bridges_part(ck, a, corrupt=False, light=False, tl=None, fams=FAMS):
             cs = cs[::max(1, len(cs) // 120)]
         return cs
     rp = Rep(ck, mc, cp, mp, a, light)
+    rp.legacy = legacy
     rp.withpen(pick("withpen"))
     rp.withcons(pick("withcons"))
     rp.aspen(pick("aspen"))
@@ -722,7 +860,11 @@ def bridges_part(ck, a, corrupt=False, light=False, tl=None, fams=FAMS):
     rp.uniq(pick("uniq"))
     rp.solve(pick("solvec"), pick("solvep"))
     ck.extra["c17_bridges"] = {"cases_replayed": rp.stats, "emitted": {f: len(tl[f]) for f in FAMS}, "observations": rp.obs,
-                               "solver_postcondition_tolerance": TOL_SOLVE}
+                               "solver_postcondition_tolerance": TOL_SOLVE, "spellings": dict(sorted(rp.spell.items()))}
+    if not legacy and not light and not corrupt and tuple(fams) == FAMS:
+        thin = {k: v for k, v in rp.spell.items() if v < MIN_PER_SPELLING}
+        if thin:
+            raise RuntimeError("spelling rotation of the bridge cases is too thin: %s" % thin)
     ck.extra.setdefault("observations", {}).update(rp.obs)
     if "bridges" not in ck.rule:
         ck.rule += ("; bridges: a case = one TLC-emitted line of Bridges.tla replayed on with_penalty / with_constraint / as_penalty / "
@@ -735,6 +877,9 @@ def bridges_part(ck, a, corrupt=False, light=False, tl=None, fams=FAMS):
         "bridges: solve / as_constraint are checked by post-condition only, on linear conditions with at least two feasible lattice "
         "points and on idempotent constraint tables, with mystic.tools.random_seed fixed per run; 'issolution accepts' is read at "
         "tol=%g for solver runs (the documentation promises no accuracy)" % TOL_SOLVE,
+        "bridges (H17): a point given as float32 array makes numpy compute the residual in single precision: as_penalty values "
+        "that involve a square root are then compared to 1e-6 relative (1e-12 otherwise; exact where the distance is a lattice "
+        "number); vectorize(axis=0) needs an array (`x.T`): lists of lists are outside its domain",
         "bridges: unique() is checked by post-condition with random.seed fixed per call; 'range(min,max)' of the documentation is read "
         "closed for type forms (the code's own reading); for {'min','max','type':int} lengths between the half-open and the closed "
         "reading are accepted either way"]
@@ -868,6 +1013,32 @@ def selftest_bridges(a):
         mc.unique = u
         mc.impose_unique = impose_unique_using(u)
 
+    # H17: defects that only particular spellings of the inputs expose
+    def with_penalty_k1(ptype, *args, **kwds):
+        kwds.setdefault("k", 1)                                                 # an omitted k is no longer the type's default
+        return orig["with_penalty"](ptype, *args, **kwds)
+
+    def vectorize_dtype(constraint, axis=1):
+        v = orig["vectorize"](constraint, axis=axis)
+        def transform(x, *args, **kwds):
+            return numpy.array(v(x, *args, **kwds), dtype=numpy.asarray(x).dtype)    # the result inherits the dtype of the data
+        return transform
+
+    def as_penalty_dtype(constraint, ptype=None, *args, **kwds):
+        def typed(x, *argz, **kwdz):
+            return numpy.array(constraint(x, *argz, **kwdz), dtype=numpy.asarray(x).dtype)   # c(x) in the dtype of x
+        return orig["as_penalty"](typed, ptype, *args, **kwds)
+
+    def has_unique_list(x):
+        return orig["has_unique"](x) if isinstance(x, list) else 0              # anything but a list: "nothing to count"
+
+    spelled = [
+        ("with_penalty: an omitted k becomes 1", ("withpen",), lambda: setattr(mc, "with_penalty", with_penalty_k1)),
+        ("vectorize returns the dtype of its input", ("vect", "vectr"), lambda: setattr(mc, "vectorize", vectorize_dtype)),
+        ("as_penalty measures c(x) in the dtype of x", ("aspen",), lambda: setattr(mc, "as_penalty", as_penalty_dtype)),
+        ("has_unique counts in lists only", ("scalar",), lambda: setattr(mc, "has_unique", has_unique_list)),
+    ]
+
     mutants = [
         ("with_penalty subtracts the penalty", ("withpen",), lambda: setattr(mc, "with_penalty", with_penalty_sub)),
         ("with_penalty drops args/kwds of the condition", ("withpen",), lambda: setattr(mc, "with_penalty", with_penalty_noargs)),
@@ -915,6 +1086,30 @@ def selftest_bridges(a):
             new = sorted(k for k in set(ck.viol_keys) - base if k.startswith("bridge:"))
             print("SELFTEST bridges %s: %s (%s)" % (name, "caught" if new else "MISSED", ", ".join(new[:3]) or "no new violation class"))
             missed += 0 if new else 1
+        for name, fams, apply_ in spelled:
+            res = {}
+            for legacy in (False, True):
+                apply_()
+                ck = fresh()
+                try:
+                    with contextlib.redirect_stdout(io.StringIO()):
+                        bridges_part(ck, a, light=True, tl=tl, fams=fams, legacy=legacy)
+                except Exception as ex:
+                    ck.viol_keys["bridge:mutant raised %r" % (ex,)] = 1
+                finally:
+                    restore()
+                res[legacy] = sorted(k for k in set(ck.viol_keys) - base if k.startswith("bridge:"))
+            print("SELFTEST bridges [spellings] %s: %s (%s; the one-spelling enumeration before H17: %s)" % (
+                name, "caught" if res[False] else "MISSED", ", ".join(res[False][:3]) or "no new violation class",
+                "caught as well" if res[True] else "missed"))
+            missed += 0 if res[False] else 1
+        ck = fresh()
+        with contextlib.redirect_stdout(io.StringIO()):
+            bridges_part(ck, a, light=True, tl=corrupt_dflt(tl), fams=("withpen",))
+        got = set(ck.viol_keys) - base
+        print("SELFTEST bridges corrupted TLC statement 'k, h are the type's defaults': %s (%s)" % (
+            "caught" if "bridge:with_penalty:value" in got else "MISSED", ", ".join(sorted(got)[:3])))
+        missed += 0 if "bridge:with_penalty:value" in got else 1
         ck = fresh()
         with contextlib.redirect_stdout(io.StringIO()):
             bridges_part(ck, a, light=True, tl=tl, corrupt=True)
